@@ -29,6 +29,8 @@ EVERY_TYPE_MACROS = {
     'many': ['AnyDelimited'],
     'manyo': ['AnyDelimitedOptional', 'm'],
     'mom': ['m', 'o'], 'mrp': ['r()', 'm'], 'mdp': ['d()'], 'mtb': ['t!', 'm'], 'mvm': ['m', 'v'],
+    'mtp': [('m', 'text'), 'm'], 'mpm': ['m', ('m', 'math')],
+    'mmpt': [('m', 'math'), 'm', ('m', 'text')],
 }
 EVERY_TYPE_ENVS = {
     'eenv': ['[', '{'],
@@ -36,6 +38,7 @@ EVERY_TYPE_ENVS = {
     'eplain': [],
     'e2-x:y': [],         # digits, dash and colon are allowed in environment names
     'esd': ['s', 'd()', 'm'],
+    'ematharg': ['[', '{'],   # math-mode body, arguments in the outer mode
 }
 EVERY_TYPE_SPECIALS = {
     '~': [],
@@ -75,7 +78,7 @@ def every_type_db(unknown=True, as_strings=False):
     envs = []
     for name, args in EVERY_TYPE_ENVS.items():
         kw = {}
-        if name == 'emath':
+        if name in ('emath', 'ematharg'):
             kw['body_parsing_state_delta'] = ParsingStateDeltaEnterMathMode()
         envs.append(EnvironmentSpec(name, arguments_spec_list=mk(args), **kw))
     specials = [SpecialsSpec(ch, arguments_spec_list=mk(args))
